@@ -4,7 +4,8 @@
  * earlier was delivered and nothing sent after it is delivered.
  * Modules: A and C send, B receives (subscribed to "t" and to M_PS_MOD_STOPPED).
  * Per job: SCRIPT = sequence of steps (1 A tells B, 2 C tells B, 3 A publishes "t", 4 C publishes "t", 5 A broadcasts,
- * 6 A sends B the poison pill, 7 C is paused (system notification naming C), 8 pause B, 9 resume B, 10 one dispatch),
+ * 6 A sends B the poison pill, 7 C is paused (system notification naming C), 8 pause B, 9 resume B, 10 one dispatch,
+ * 11 A publishes "h", to which B holds a HIGH-priority subscription),
  * MODE (0 dispatch until drained, 1 quit + flush, 2 blocking loop ended by the handler), BATCH (batch size of B).
  * Symbolic: errno left by handlers, quit code, auto-free bits. */
 #include "vf.h"
@@ -47,6 +48,7 @@ int vf_main(void) {
     r = m_mod_start(C); VF_CHECK(r == 0, "start C");
     r = m_mod_ps_subscribe(B, "t", 0, NULL); VF_CHECK(r == 0, "B subscribes to t");
     r = m_mod_ps_subscribe(B, M_PS_MOD_STOPPED, 0, NULL); VF_CHECK(r == 0, "B subscribes to MOD_STOPPED");
+    r = m_mod_ps_subscribe(B, "h", M_SRC_PRIO_HIGH, NULL); VF_CHECK(r == 0, "B subscribes to h with high priority");
 #if BATCH
     r = m_mod_set_batch_size(B, BATCH); VF_CHECK(r == 0, "batch size");
 #endif
@@ -56,7 +58,7 @@ int vf_main(void) {
     int exp[16]; int nexp = 0; _Bool pilled = 0; _Bool cpaused = 0;
     for (int i = 0; i < NS; i++) {
         unsigned char s = script[i];
-        if (s >= 1 && s <= 5 && !pilled) exp[nexp++] = i;
+        if (((s >= 1 && s <= 5) || s == 11) && !pilled) exp[nexp++] = i;
         if (s == 7 && !pilled && !cpaused) { exp[nexp++] = i; cpaused = 1; }
         if (s == 8 && !pilled) exp[nexp++] = i;     /* B, PAUSED and subscribed, is told about its own pause like everybody else */
         if (s == 6) pilled = 1;
@@ -73,6 +75,7 @@ int vf_main(void) {
         case 3: r = m_mod_ps_publish(A, "t", &pl[i], fl); VF_CHECK(r == 0, "publish accepted"); break;
         case 4: r = m_mod_ps_publish(C, "t", &pl[i], fl); VF_CHECK(r == 0, "publish accepted"); break;
         case 5: r = m_mod_ps_publish(A, NULL, &pl[i], fl); VF_CHECK(r == 0, "broadcast accepted"); break;
+        case 11: r = m_mod_ps_publish(A, "h", &pl[i], fl); VF_CHECK(r == 0, "publish accepted"); break;
         case 6: r = m_mod_ps_poisonpill(A, B); VF_CHECK(r == 0, "poison pill accepted for a RUNNING recipient"); break;
         case 7: r = m_mod_pause(C); break;
         case 8: r = m_mod_pause(B); VF_CHECK(r == 0, "pause B"); break;
@@ -110,6 +113,9 @@ int vf_main(void) {
     VF_CHECK(k == nexp, "everything sent before the pill was delivered");
 #endif
     if (pilled) VF_CHECK(m_mod_is(B, M_MOD_STOPPED), "the pill stopped B");
+    for (int j = 0; j < VF_LOGN; j++) if (j < vf_nlog[1]) VF_CHECK(vf_log[1][j].state == M_MOD_RUNNING, "everything is handed to B while it is still RUNNING: the pill stops it only afterwards");
+    VF_CHECK(vf_evt_not_running == 0, "no handler invocation for a module that is not RUNNING");
+    if (pilled) VF_CHECK(vf_nstop[1] == 1, "stop callback once");
     VF_CHECK(vf_nlog[1] <= VF_LOGN, "log not overrun");
     VF_WITNESS("end");
     return 0;
